@@ -177,16 +177,20 @@ func RAcc(c *core.Ctx) {
 
 // R-ACCCAP: a capped expansion reports "fully processed" only through the cap.
 func RAccCap(c *core.Ctx) {
-	c.Rule("R-ACCCAP", "where an analysis caps how many repetitions of a loop it expands (`V := K; if X.M < V { V = X.M }`), every later `return e` of that arm is `false` or mentions V (or a loop index bounded by V): 'the rest of the pattern follows at a known offset' may only be claimed when the cap did not truncate the loop", 8)
+	c.Rule("R-ACCCAP", "where an analysis caps how many repetitions of a loop it expands (`V := K; if X.M < V { V = X.M }` or `V := min(K, X.M)`), every later `return e` of that arm is `false` or compares V (or a loop index bounded by V) with the loop's MAXIMUM X.N: 'the rest of the pattern follows at a known offset' may only be claimed when the loop cannot run longer than what was expanded — equality with the minimum X.M says nothing about that", 8)
 	p := c.P
 	syn := p.Pkg("syntax")
 	info := syn.TypesInfo
 	mField := p.LookupField("syntax", "RegexNode", "M")
-	if mField == nil {
-		c.Anchor("RegexNode.M")
+	nField := p.LookupField("syntax", "RegexNode", "N")
+	if mField == nil || nField == nil {
+		c.Anchor("RegexNode.M / RegexNode.N")
 		return
 	}
 	for _, fd := range p.FuncDecls(syn) {
+		if fd.Body == nil {
+			continue
+		}
 		name := core.DeclName(syn, fd)
 		// scopes: each case clause body, or the function body
 		var scopes [][]ast.Stmt
@@ -198,73 +202,114 @@ func RAccCap(c *core.Ctx) {
 		})
 		scopes = append(scopes, fd.Body.List)
 		done := map[token.Pos]bool{}
-		for _, sc := range scopes {
-			blk := &ast.BlockStmt{List: sc}
-			ast.Inspect(blk, func(n ast.Node) bool {
-				ifs, ok := n.(*ast.IfStmt)
-				if !ok || done[ifs.Pos()] {
-					return true
-				}
-				be, ok := ast.Unparen(ifs.Cond).(*ast.BinaryExpr)
-				if !ok || be.Op != token.LSS || core.FieldOf(info, be.X) != mField {
-					return true
-				}
-				vid, ok := ast.Unparen(be.Y).(*ast.Ident)
-				if !ok || len(ifs.Body.List) != 1 {
-					return true
-				}
-				as, ok := ifs.Body.List[0].(*ast.AssignStmt)
-				if !ok || len(as.Lhs) != 1 || len(as.Rhs) != 1 {
-					return true
-				}
-				lid, ok := as.Lhs[0].(*ast.Ident)
-				if !ok || info.ObjectOf(lid) != info.ObjectOf(vid) || core.FieldOf(info, as.Rhs[0]) != mField {
-					return true
-				}
-				done[ifs.Pos()] = true
-				V := info.ObjectOf(vid)
-				// loop indexes bounded by V
-				bounded := map[types.Object]bool{V: true}
-				ast.Inspect(blk, func(m ast.Node) bool {
-					if fs, ok := m.(*ast.ForStmt); ok && fs.Cond != nil {
-						for _, cj := range conjuncts(fs.Cond) {
-							if cmp, ok := cj.(*ast.BinaryExpr); ok && cmp.Op == token.LSS {
-								if rid, ok := ast.Unparen(cmp.Y).(*ast.Ident); ok && info.ObjectOf(rid) == V {
-									if iid, ok := ast.Unparen(cmp.X).(*ast.Ident); ok {
-										bounded[info.ObjectOf(iid)] = true
-									}
+		analyseCap := func(blk *ast.BlockStmt, V types.Object, vname string, after token.Pos) {
+			// loop indexes bounded by V
+			bounded := map[types.Object]bool{V: true}
+			ast.Inspect(blk, func(m ast.Node) bool {
+				if fs, ok := m.(*ast.ForStmt); ok && fs.Cond != nil {
+					for _, cj := range conjuncts(fs.Cond) {
+						if cmp, ok := cj.(*ast.BinaryExpr); ok && cmp.Op == token.LSS {
+							if rid, ok := ast.Unparen(cmp.Y).(*ast.Ident); ok && info.ObjectOf(rid) == V {
+								if iid, ok := ast.Unparen(cmp.X).(*ast.Ident); ok {
+									bounded[info.ObjectOf(iid)] = true
 								}
+							}
+						}
+					}
+				}
+				return true
+			})
+			c.Visit(name)
+			k := 0
+			ast.Inspect(blk, func(m ast.Node) bool {
+				ret, ok := m.(*ast.ReturnStmt)
+				if !ok || ret.Pos() < after || len(ret.Results) == 0 {
+					return true
+				}
+				res := ret.Results[len(ret.Results)-1]
+				if !isBoolExpr(info, res) {
+					return true
+				}
+				k++
+				okRet := false
+				if id, isId := ast.Unparen(res).(*ast.Ident); isId && id.Name == "false" {
+					okRet = true
+				}
+				mentions := false
+				ast.Inspect(res, func(z ast.Node) bool {
+					if id, ok := z.(*ast.Ident); ok && bounded[info.ObjectOf(id)] {
+						mentions = true
+					}
+					// V == X.N  /  X.N == V
+					if be, ok := z.(*ast.BinaryExpr); ok && be.Op == token.EQL {
+						for _, pr := range [][2]ast.Expr{{be.X, be.Y}, {be.Y, be.X}} {
+							if id, ok := ast.Unparen(pr[0]).(*ast.Ident); ok && bounded[info.ObjectOf(id)] && core.FieldOf(info, pr[1]) == nField {
+								okRet = true
 							}
 						}
 					}
 					return true
 				})
-				c.Visit(name)
-				k := 0
-				ast.Inspect(blk, func(m ast.Node) bool {
-					ret, ok := m.(*ast.ReturnStmt)
-					if !ok || ret.Pos() < ifs.End() || len(ret.Results) == 0 {
+				why := "does not depend on the capped count " + vname + ": a loop longer than the cap would be reported as fully expanded"
+				if mentions && !okRet {
+					why = "mentions " + vname + " but does not compare it with the loop's maximum .N: `" + vname + " == X.M` holds whenever the minimum is below the cap and says nothing about further iterations"
+				}
+				c.Check(okRet, fmt.Sprintf("%s / return #%d after the cap %s", name, k, vname), ret.Pos(), "`%s` %s", types.ExprString(res), why)
+				return true
+			})
+		}
+		for _, sc := range scopes {
+			blk := &ast.BlockStmt{List: sc}
+			ast.Inspect(blk, func(n ast.Node) bool {
+				switch x := n.(type) {
+				case *ast.IfStmt:
+					if done[x.Pos()] {
 						return true
 					}
-					res := ret.Results[len(ret.Results)-1]
-					if !isBoolExpr(info, res) {
+					be, ok := ast.Unparen(x.Cond).(*ast.BinaryExpr)
+					if !ok || be.Op != token.LSS || core.FieldOf(info, be.X) != mField {
 						return true
 					}
-					k++
-					okRet := false
-					if id, isId := ast.Unparen(res).(*ast.Ident); isId && id.Name == "false" {
-						okRet = true
+					vid, ok := ast.Unparen(be.Y).(*ast.Ident)
+					if !ok || len(x.Body.List) != 1 {
+						return true
 					}
-					ast.Inspect(res, func(z ast.Node) bool {
-						if id, ok := z.(*ast.Ident); ok && bounded[info.ObjectOf(id)] {
-							okRet = true
+					as, ok := x.Body.List[0].(*ast.AssignStmt)
+					if !ok || len(as.Lhs) != 1 || len(as.Rhs) != 1 {
+						return true
+					}
+					lid, ok := as.Lhs[0].(*ast.Ident)
+					if !ok || info.ObjectOf(lid) != info.ObjectOf(vid) || core.FieldOf(info, as.Rhs[0]) != mField {
+						return true
+					}
+					done[x.Pos()] = true
+					analyseCap(blk, info.ObjectOf(vid), vid.Name, x.End())
+				case *ast.AssignStmt:
+					// the same cap written with min(): V := min(K, X.M)
+					if done[x.Pos()] || len(x.Lhs) != 1 || len(x.Rhs) != 1 {
+						return true
+					}
+					call, ok := ast.Unparen(x.Rhs[0]).(*ast.CallExpr)
+					if !ok {
+						return true
+					}
+					kind, args := core.MinMaxCall(p, info, call)
+					if kind != "min" {
+						return true
+					}
+					hasM := false
+					for _, a := range args {
+						if core.FieldOf(info, a) == mField {
+							hasM = true
 						}
+					}
+					vid, ok := x.Lhs[0].(*ast.Ident)
+					if !hasM || !ok {
 						return true
-					})
-					// `if !rec(...) { return false }` inside a loop bounded by V is covered by the literal false
-					c.Check(okRet, fmt.Sprintf("%s / return #%d after the cap %s", name, k, vid.Name), ret.Pos(), "`%s` does not depend on the capped count %s: a loop longer than the cap would be reported as fully expanded", types.ExprString(res), vid.Name)
-					return true
-				})
+					}
+					done[x.Pos()] = true
+					analyseCap(blk, info.ObjectOf(vid), vid.Name, x.End())
+				}
 				return true
 			})
 		}
